@@ -281,6 +281,9 @@ func (tree *Tree[T]) Handler(ctx *types.Context, method string) (types.Node, T, 
 	if node == nil || node.size() == 0 {
 		return nil, tree.notFound, false
 	}
+	if method == methodNotAllowed { // 空的请求方法并非注册的方法，不能被当作已匹配的 405 处理项。
+		return node, node.handlers[methodNotAllowed], false
+	}
 	if h, exists := node.handlers[method]; exists {
 		return node, h, true
 	}
